@@ -211,29 +211,29 @@ const (
 
 // the canonical statements this translator knows, per function
 var updateTable = map[string]string{
-	"if !msg.(*model.ConsensusVerifyMessage)#1 {return NewError(..)}": "typeCheck",
-	"if r.checkBlockExisted() != nil {return r.checkBlockExisted()}":                                                                         "checkBlockExisted",
-	"if !" + pkLk + "#1 {" + retNo + "}":                                                                                                      "pkGuard",
-	"if " + si + ".GetDataHash() != r.bh.Hash {" + retNo + "}":                                                                                "bindHash",
-	"if !" + si + ".VerifySign(" + pkLk + "#0) {" + retNo + "}":                                                                               "verifySign",
-	"if " + rsig + " == nil || " + rsig + ".IsNil() {" + retNo + "}":                                                                          "randNil",
-	"if !groupsig.VerifySig(" + pkLk + "#0, r.preBH.Random, *" + rsig + ") {" + retNo + "}":                                                   "randVerify",
-	"do " + gAdd: "gAdd",
+	"if !msg.(*model.ConsensusVerifyMessage)#1 {return NewError(..)}":                       "typeCheck",
+	"if r.checkBlockExisted() != nil {return r.checkBlockExisted()}":                        "checkBlockExisted",
+	"if !" + pkLk + "#1 {" + retNo + "}":                                                    "pkGuard",
+	"if " + si + ".GetDataHash() != r.bh.Hash {" + retNo + "}":                              "bindHash",
+	"if !" + si + ".VerifySign(" + pkLk + "#0) {" + retNo + "}":                             "verifySign",
+	"if " + rsig + " == nil || " + rsig + ".IsNil() {" + retNo + "}":                        "randNil",
+	"if !groupsig.VerifySig(" + pkLk + "#0, r.preBH.Random, *" + rsig + ") {" + retNo + "}": "randVerify",
+	"do " + gAdd:                         "gAdd",
 	"if !" + gAdd + "#0 {" + retNo + "}": "gAddGuard",
-	"do " + rAdd: "rAdd",
+	"do " + rAdd:                         "rAdd",
 	"if " + rAdd + "#0 && " + gAdd + "#1 && " + rAdd + "#1 {set r.bh.Signature = r.gSignGenerator.GetGroupSign().Serialize(); set r.bh.Random = r.rSignGenerator.GetGroupSign().Serialize(); set r.canProcessed = true}": "finish",
 	retNo: "returnNil",
 }
 
 var checkSigTable = map[string]string{
-	"if !groupsig.VerifySig(group.GetGroupPubKey(), r.bh.Hash.Bytes(), *groupsig.DeserializeSign(r.bh.Signature)) {return NewError(..)}":   "verifyBlockSig",
-	"if !groupsig.VerifySig(group.GetGroupPubKey(), r.preBH.Random, *groupsig.DeserializeSign(r.bh.Random)) {return NewError(..)}": "verifyRandomSig",
+	"if !groupsig.VerifySig(group.GetGroupPubKey(), r.bh.Hash.Bytes(), *groupsig.DeserializeSign(r.bh.Signature)) {return NewError(..)}": "verifyBlockSig",
+	"if !groupsig.VerifySig(group.GetGroupPubKey(), r.preBH.Random, *groupsig.DeserializeSign(r.bh.Random)) {return NewError(..)}":       "verifyRandomSig",
 	retNo: "returnNil",
 }
 
 var verifySignTable = map[string]string{
-	"if !si.signerID.IsValid() {return false}":                                 "signerNonZero",
-	"return groupsig.VerifySig(pk, si.dataHash.Bytes(), si.signature)":         "verifyOverDataHash",
+	"if !si.signerID.IsValid() {return false}":                         "signerNonZero",
+	"return groupsig.VerifySig(pk, si.dataHash.Bytes(), si.signature)": "verifyOverDataHash",
 }
 
 func steps(fd *ast.FuncDecl, table map[string]string, effects []string, dump bool) []string {
